@@ -347,22 +347,31 @@ func topOf(x *Term, def *Term) *Term {
 	return def
 }
 
+// mentionsFresh: the address term is not known to denote an object that existed at entry.
 func mentionsFresh(t *Term, depth int) bool {
+	return !boundedByEntry(t, depth)
+}
+
+func boundedByEntry(t *Term, depth int) bool {
 	if depth > 12 {
-		return true
+		return false
 	}
 	switch t.Op {
 	case "const":
-		return strings.Contains(t.Name, "!")
-	case "def":
+		return strings.HasPrefix(t.Name, "in|")
+	case "int":
 		return true
-	case "int", "str", "bool", "bv", "var":
-		return false
-	}
-	for _, a := range t.Args {
-		if mentionsFresh(a, depth+1) {
-			return true
+	case "ite":
+		return len(t.Args) == 3 && boundedByEntry(t.Args[1], depth+1) && boundedByEntry(t.Args[2], depth+1)
+	case "select":
+		a := t.Args[0]
+		if a.Op != "const" || strings.Contains(a.Name, "!") {
+			return false
 		}
+		if _, ok := constTop[a.Name]; ok {
+			return false
+		}
+		return boundedByEntry(t.Args[1], depth+1)
 	}
 	return false
 }
